@@ -24,6 +24,9 @@ WATCHDOG = {"quick": 900, "thorough": 3000}
 def cases(ctx):
     for i in range(ctx.pick(300, 36000)):
         yield "history", {"seed": ctx.subseed("h", i)}
+    sizes = [1, 2, 64, 100, 256, 499, 500, 501, 1000, 1024] + ([] if ctx.quick else [10, 50, 128, 200, 250, 512, 2000, 2048, 4096, 5000, 10000])
+    for i, sz in enumerate(sizes):
+        yield "bulk", {"seed": ctx.subseed("bk", sz), "size": sz}
     algos = ["nsga2", "epsmoea", "omopso", "smpso", "psoga", "sweep", "scipy", "nlopt"]
     for i in range(ctx.pick(48, 4800)):
         yield "run", {"seed": ctx.subseed("r", i), "algo": algos[i % len(algos)]}
@@ -201,7 +204,44 @@ def run_case(ctx, name, params):
     if os.path.exists(path):
         os.unlink(path)
     try:
-        if name == "history":
+        if name == "bulk":
+            # sync_all over a record of a round size (batching boundaries), once and again after changes
+            size = params["size"]
+            p = hooks.make_problem(n=2, m=1)
+            ts = r.random() < 0.7
+            store = SqliteDataStore(p, database_name=path, thread_safe=ts)
+            p.data_store = store
+            inds = []
+            for k in range(size):
+                ind = Individual([float(k), r.uniform(-1, 1)])
+                ind.costs = [r.uniform(0, 9)]
+                ind.costs_signed = [ind.costs[0], True]
+                inds.append(ind)
+                p.individuals.append(ind)
+            wit = lambda extra=None: {"individuals": size, "thread_safe": ts, "extra": extra}
+            model = {}
+            for round_ in range(2):
+                try:
+                    store.sync_all()
+                except Exception as e:
+                    ctx.violation("sync/exception", "sync_all raised %r for %d individuals" % (e, size), wit())
+                    return
+                import gc
+                gc.collect()
+                for ind in inds:
+                    model[ind.id] = snapshot(ind)
+                view = read_back(ctx, path, wit)
+                if view is None or not compare(ctx, view, path, model, p, wit, "bulk"):
+                    return
+                for ind in r.sample(inds, max(1, size // 10)):
+                    ind.costs = [r.uniform(0, 9)]
+                    ind.costs_signed = [ind.costs[0], True]
+                    ind.population_id = 3
+            store.destroy()
+            ctx.count("bulk_sync_all_records", 1)
+            ctx.nontrivial(("bulk", size))
+            ctx.count("cases")
+        elif name == "history":
             n = r.randint(1, 4)
             m = r.randint(1, 3)
             prm = [{"name": "par_%d_%s" % (i, r.choice(["a", "ž", "x y"])), "bounds": [rfloat(r) if False else r.uniform(-9, 0), r.uniform(0.1, 9)],
@@ -235,7 +275,7 @@ def run_case(ctx, name, params):
                 elif c < 0.9:
                     ind = r.choice(pool)
                     holder = None
-                    if ts and r.random() < 0.02:
+                    if ts and r.random() < 0.012:
                         # another connection holds the write lock for a while (a second worker, a viewer...): the busy time-out
                         # is shortened to 50 ms so that the synchronisation runs into "database is locked" and has to retry
                         import threading
